@@ -319,6 +319,34 @@ theorem c09_matches_verify_agree (env : Env) (f : Facts9) (hwf9 : WF9 env f = tr
       exact hwf9.1.2
     simp [matchesM, h, leavesAsGlomError, hg, hcatch]
 
+/-- **… also when evaluating the pattern faults**: a comparison between incomparable values
+    (`M > 0` on a str), an unhashable member of a rebuilt set — anything that is not a GlomError —
+    leaves `glom()` / `verify()` as that TypeError (handed on wrapped as a GlomError by the top-level
+    `glom()`), and `matches()` answers **False**: it never raises.  (A fault is a TypeError or a
+    constructor's ValueError: `den_faultOK`, for every pattern and target.) -/
+theorem c09_matches_on_fault (env : Env) (f : Facts9) (hwf : WF env = true) (hwf9 : WF9 env f = true)
+    (p : Spec) (d : Option Arg) (t : V) (hc : ctorErr p = none) (e : PyExc)
+    (h : (matchGlom env p d t).1 = .error e) : (matchesM env p d t).1 = .ok false := by
+  have hcatch : ((env.catches.lookup "Match.matches").bind (·[0]?) == some ["GlomError"]) = true := by
+    unfold WF9 at hwf9
+    simp only [Bool.and_eq_true] at hwf9
+    exact hwf9.1.2
+  have hr := c09_refines env hwf p d t hc
+  rcases hr.cases with ⟨a, l, h1, h2⟩ | ⟨e', og, l, h1, h2, hcl⟩ | ⟨e', l, h1, h2, hg⟩
+  · rw [h1] at h; cases h
+  · rw [h1] at h; injection h with h; subst h
+    simp [matchesM, h1, leavesAsGlomError, classOK_glom hcl, hcatch]
+  · rw [h1] at h; injection h with h; subst h
+    have hf := den_faultOK env.cls (.matchS p d) t
+    rw [h2] at hf
+    simp only [faultOK, Bool.or_eq_true, beq_iff_eq] at hf
+    have hw := WF.facts hwf
+    have hexc : env.exc.isSub e'.cls "Exception" = true := by
+      rcases hf with hf | hf
+      · rw [hf]; exact (hw.plain_ok "TypeError" (by simp)).2
+      · rw [hf]; exact (hw.plain_ok "ValueError" (by simp)).2
+    simp [matchesM, h1, leavesAsGlomError, hexc, hcatch]
+
 /-- **Match(default=) returns the default instead**: a rejection (any GlomError) becomes
     `arg_val(default)`; a pass and a fault are untouched. -/
 theorem c09_default (env : Env) (hwf : WF env = true) (p : Spec) (d : Arg) (t : V) :
@@ -363,10 +391,17 @@ theorem c09_model_checks (env : Env) (f : Facts9) (hwf : WF env = true) (hwf9 : 
     rcases hr.cases with ⟨a, l, h1, h2⟩ | ⟨e, og, l, h1, h2, hcl⟩ | ⟨e, l, h1, h2, hg⟩
     · simp [h2, matchesM, h1, obsOfMatches, observe, obsIsOk]
     · simp [h2, matchesM, h1, obsOfMatches, observe, obsIsOk, leavesAsGlomError, classOK_glom hcl, hcatch]
-    · rw [h2]
-      simp only [matchesM, h1, obsOfMatches]
-      cases (leavesAsGlomError env e &&
-        ((env.catches.lookup "Match.matches").bind (·[0]?) == some ["GlomError"])) <;> simp
+    · -- a fault: a TypeError / ValueError, an `Exception`, so glom() hands it on as a GlomError
+      have hexc : env.exc.isSub e.cls "Exception" = true := by
+        have hf := den_faultOK env.cls (.matchS p d) t
+        rw [h2] at hf
+        simp only [faultOK, Bool.or_eq_true, beq_iff_eq] at hf
+        have hw := WF.facts hwf
+        rcases hf with hf | hf
+        · rw [hf]; exact (hw.plain_ok "TypeError" (by simp)).2
+        · rw [hf]; exact (hw.plain_ok "ValueError" (by simp)).2
+      rw [h2]
+      simp [matchesM, h1, obsOfMatches, leavesAsGlomError, hexc, hcatch]
   · -- two-valued reading
     cases hd : constDefaults p with
     | false => simp
@@ -690,6 +725,24 @@ theorem c09_plus_defaults_needs_wf :
     (matchGlom genEnv (.list [.ty "int"]) none (.sub "MyList" (.list [.int 1]))).1 = .ok (.list [.int 1]) ∧
     plusDefaults genEnv.cls (.list [.ty "int"]) (.sub "MyList" (.list [.int 1])) (.list [.int 1]) = false := by
   decide
+/-- **A target key that IS the key pattern object is judged like any other key**: the class `str`
+    is no instance of str, the function `is_str` is no str — the entry is not claimed and the match
+    fails; `Required(int)` is not discharged by the key `int`; under the key pattern `object` the
+    class object is an instance and the entry is claimed.  (Facts: `expectedIdentityTests` — the
+    matcher compares no target object with a spec object by identity.) -/
+theorem c09_key_object_is_judged :
+    (matchGlom genEnv (.dict [(.plain, .ty "str", .ty "int")]) none (.dict [(.obj "type#str", .int 1)])).1
+      = .error ⟨"MatchError"⟩ ∧
+    (matchGlom genEnv (.dict [(.req, .ty "int", .ty "object")]) none (.dict [(.obj "type#int", .int 1)])).1
+      = .error ⟨"MatchError"⟩ ∧
+    (matchGlom genEnv (.dict [(.plain, .pred 0 "is_str", .ty "int")]) none
+      (.dict [(.obj "function#is_str_0", .int 1)])).1 = .error ⟨"MatchError"⟩ ∧
+    (matchGlom genEnv (.dict [(.plain, .ty "object", .ty "int")]) none (.dict [(.obj "type#object", .int 1)])).1
+      = .ok (.dict [(.obj "type#object", .int 1)]) := by decide
+-- a fault through the three entry points: glom() / verify() raise the TypeError, matches() answers False
+example : (observe9 genEnv (.mexpr .m .gt (.const (.int 0))) none (.str "a")).matched = some false ∧
+    (observe9 genEnv (.mexpr .m .gt (.const (.int 0))) none (.str "a")).verify
+      = .exc "TypeError" false false false true false false [] := by decide
 -- constructor errors
 example : ctorErr (.dict [(.opt none, .ty "int", .ty "int")]) = some ⟨"ValueError"⟩ := by decide
 example : ctorErr (.dict [(.req, .lit (.str "a"), .ty "int")]) = some ⟨"ValueError"⟩ := by decide
